@@ -17,8 +17,8 @@ func init() {
 				"C10.plus6 (the round recorded is the parameter round-received + 6; both callers pass block.RoundReceived()), C10.accepted (WithNewPeer / WithRemovedPeer only under Accepted==true and the matching transaction type; the type switch covers every declared TransactionType), " +
 				"C10.lookup (PeerSetCache.Get returns the entry with the greatest round <= r; rounds kept sorted), C10.member (_witness true only for creators in the round's set; _stronglySee counts members of the given set only), " +
 				"C10.hash (Frame.Peers and BlockBody.PeersHash derive from the set of round-received; PeerSet.Hash folds the keys in slice order), C10.itx (internal transactions enter the pool only verified or self-signed), " +
-				"C10.latest (every store to core.validators takes the genesis set, the value just recorded with SetPeerSet, or a value derived from the whole peer-set history). NOT decided: equality of histories across nodes (follows from agreement)."},
-		Rules: []ruleFunc{c10writers, c10plus6, c10accepted, c10lookup, c10member, c10hash, c10itx, c10latest, c10alias},
+				"C10.immutable (a recorded set is never changed through a derived one: no append into a truncated view of another set's Peers slice, no element store into it), C10.firstround (a peer's first round is the minimum over the recorded sets whatever the order in which they are recorded), C10.latest (every store to core.validators takes the genesis set, the value just recorded with SetPeerSet, or a value derived from the whole peer-set history). NOT decided: equality of histories across nodes (follows from agreement)."},
+		Rules: []ruleFunc{c10writers, c10plus6, c10accepted, c10lookup, c10member, c10hash, c10itx, c10latest, c10alias, c10immutable, func(p *Prog, r *Report) { firstRoundRule(p, r, "C10.firstround") }},
 	})
 }
 
@@ -627,4 +627,75 @@ func rootAlloc(v ssa.Value) *ssa.Alloc {
 		}
 	}
 	return nil
+}
+
+
+// C10.immutable: sets recorded in the peer-set table are shared by reference. Deriving a new set
+// must not write into the backing array of the set it derives from: `x := ps.Peers[:0]; x =
+// append(x, …)` overwrites the parent's visible elements.
+func c10immutable(p *Prog, r *Report) {
+	const rule = "C10.immutable"
+	r.Rule(rule, 2, "no in-place rewrite of another PeerSet's Peers slice (append into a truncated view, element store)")
+	fPeers := p.Field(PEER, "PeerSet", "Peers")
+	if fPeers == nil {
+		r.Anchor(rule, "peers.PeerSet.Peers")
+		return
+	}
+	n := 0
+	for _, fn := range p.Mod {
+		if !strings.HasSuffix(fnPkgPath(fn), "/src/peers") && !strings.HasSuffix(fnPkgPath(fn), "/src/hashgraph") && !strings.HasSuffix(fnPkgPath(fn), "/src/node") {
+			continue
+		}
+		for _, b := range fn.Blocks {
+			for _, in := range b.Instrs {
+				c, ok := in.(*ssa.Call)
+				if !ok {
+					continue
+				}
+				bi, isB := c.Call.Value.(*ssa.Builtin)
+				if !isB || bi.Name() != "append" || len(c.Call.Args) == 0 {
+					continue
+				}
+				// first argument: a truncated view of a Peers field of an existing (non-fresh) set?
+				trunc := false
+				flowsFrom(c.Call.Args[0], func(x ssa.Value) bool {
+					sl, ok := x.(*ssa.Slice)
+					if !ok || sl.High == nil {
+						return false
+					}
+					if sl.Max != nil && (sl.Max == sl.High || sameConst(sl.Max, sl.High)) {
+						return false // x[:k:k]: no spare capacity, append reallocates
+					}
+					if fv, base := fieldOf(sl.X); fv == fPeers && !isFreshBase(base) {
+						trunc = true
+						return true
+					}
+					return false
+				})
+				// count the derivations we looked at: appends whose first argument comes from a Peers field at all
+				if flowsFrom(c.Call.Args[0], func(x ssa.Value) bool { fv, _ := fieldOf(x); return fv == fPeers }) || trunc {
+					n++
+					r.Check(!trunc, rule, fn.Name()+":append-into-view-of-Peers", p.ipos(c), fnName(fn), "appends after the parent's elements (never over them)",
+						"append into a truncated view of an existing set's Peers slice: the elements of the set it derives from — which the peer-set table still holds for earlier rounds — are overwritten in place; its Peers (hence its hash) no longer match its maps")
+				}
+			}
+		}
+	}
+	// element stores into Peers of a non-fresh set
+	var bad []string
+	for _, w := range p.writersOf(fPeers) {
+		if w.Kind == "elemstore" && !w.Fresh {
+			bad = append(bad, fnName(w.Fn)+"@"+p.ipos(w.Instr))
+		}
+	}
+	r.Check(len(bad) == 0, rule, "PeerSet.Peers:element-stores", "-", "", "no element of a set's Peers slice is overwritten", "elements of a PeerSet's Peers slice are overwritten: "+strings.Join(bad, ", "))
+	if n == 0 {
+		r.Fail(rule, "derivations", "-", "", "no derivation from a Peers slice found")
+	}
+}
+
+func sameConst(a, b ssa.Value) bool {
+	ka, oka := intConst(a)
+	kb, okb := intConst(b)
+	return oka && okb && ka == kb
 }
